@@ -3,21 +3,23 @@
   (`Start<BinaryStartReceiver>`, src/operator/start/binary.rs as of 6c83288 + 14727d5, composed with
   src/operator/start/mod.rs:213-311).
 
-  Proved at full strength for a cached LEFT side: `bstart_grammar` — for every `nL, nR ≥ 1` and every
-  history that respects the input contract `contractL` (see Props/C11.lean; any interleaving, any
-  receive timeouts) and has returned `Terminate`, the output is
+  Proved at full strength for a cached LEFT side (`bstart_grammar`, contract `contractL`) and a cached RIGHT
+  side (`bstart_grammar_right`, `contractR`; by the side-exchange argument of Props/C11.lean): for every
+  `nL, nR ≥ 1`, every contract-respecting history (any interleaving, any receive timeouts) that has
+  returned `Terminate` and every resolution `ch` of the unspecified two-sided `select`, the output is
   `((item|ts|wm|flushBatch)* far)+ term` (`grammarOk`). For EVERY history (cached or not, contract or
   not): `bstart_grammar_partial`, the `Terminate` clause (at most once, last, exactly when the run ended).
 
   The protocol's own timeout `FlushBatch` is not part of these outputs (the harness stops pulling at it
-  and does not print it), so the remark of finding F11 (a timeout `FlushBatch` between the last
-  `FlushAndRestart` and `Terminate`, Props/C05 of the simple `Start`) neither shows up here nor is
-  excluded by this theorem; it is a property of `Start::next`, identical for both receivers.
+  and does not print it; a pending watermark announcement released by it is), so the remark of finding
+  F11 (a timeout `FlushBatch` between the last `FlushAndRestart` and `Terminate`) neither shows up here
+  nor is excluded by this theorem; it is a property of `Start::next`, identical for both receivers. The
+  invariant does show that no watermark announcement is pending once a round is closed, so nothing but
+  that `FlushBatch` can appear there.
 
-  Still out of reach (not mechanised): the `FlushAndRestart` clause for a cached RIGHT side (mirror image
-  of the invariant, the model is not symmetric) and for the uncached binary start (needs its own
-  lock-step invariant between the two sides' `missing_flush_and_restart` counters and `Start`'s); both
-  are checked by the oracle on every implementation trace and by `decide` on the instances below.
+  Still out of reach (not mechanised): the `FlushAndRestart` clause for the UNCACHED binary start (needs its
+  own lock-step invariant between the two sides' `missing_flush_and_restart` counters and `Start`'s);
+  checked by the oracle on every implementation trace and by `decide` on the instances below.
 -/
 import NoirVerif.Lemmas.BinaryStart
 namespace Noir.BinaryStart
@@ -27,22 +29,27 @@ variable {α : Type}
 /-- **C05 (binary start, `Terminate` clause; `_partial`).** For every history (cached or not, any
     parallelism, any interleaving, any receive timeouts) from a live `Start`: the output contains
     `Terminate` at most once, as its last element, and it is there exactly when the run ended. -/
-theorem bstart_grammar_partial (nL nR : Nat) (lc rc : Bool) (hn : nL + nR ≠ 0) (ops : List (Op α)) :
-    ((run nL nR lc rc ops).2 ≠ .done ∧ Elem.term ∉ (run nL nR lc rc ops).1)
-    ∨ ((run nL nR lc rc ops).2 = .done
-        ∧ ∃ pre, (run nL nR lc rc ops).1 = pre ++ [Elem.term] ∧ Elem.term ∉ pre) := by
-  have := runFrom_term ops (init nL nR lc rc) 0 (by simpa [init, Noir.Start.init] using hn)
+theorem bstart_grammar_partial (ch : Nat → Bool) (nL nR : Nat) (lc rc : Bool) (hn : nL + nR ≠ 0)
+    (ops : List (Op α)) :
+    ((run ch nL nR lc rc ops).2 ≠ .done ∧ Elem.term ∉ (run ch nL nR lc rc ops).1)
+    ∨ ((run ch nL nR lc rc ops).2 = .done
+        ∧ ∃ pre, (run ch nL nR lc rc ops).1 = pre ++ [Elem.term] ∧ Elem.term ∉ pre) := by
+  have := runFrom_term (ch := ch) ops (init nL nR lc rc) 0 (by simpa [init, Noir.Start.init] using hn)
   simpa [run] using this
 
 /-- **C05 (binary start with a cached left side).** Every complete contract-respecting history yields a
-    well-formed stream: one or more iterations, each closed by `FlushAndRestart`, then `Terminate`. -/
-theorem bstart_grammar (nL nR : Nat) (ops : List (Op α))
-    (hc : contractL nL nR ops = true) (hd : (run nL nR true false ops).2 = .done) :
-    grammarOk (run nL nR true false ops).1 = true := by
-  obtain ⟨P, rs, cur, h1, h2, _, _, h3⟩ := run_shaped nL nR ops hc
-  rcases h3 with ⟨_, _, e3⟩ | ⟨e1, e2, _⟩
-  · exact absurd hd e3
-  · rw [e1]; exact grammarOk_rounds rs h1 e2
+    well-formed stream: one or more iterations, each closed by `FlushAndRestart`, then `Terminate` —
+    whatever the resolution `ch` of the unspecified choices. -/
+theorem bstart_grammar (ch : Nat → Bool) (nL nR : Nat) (ops : List (Op α))
+    (hc : contractL nL nR ops = true) (hd : (run ch nL nR true false ops).2 = .done) :
+    grammarOk (run ch nL nR true false ops).1 = true :=
+  shaped_grammar (run_shaped nL nR ops hc) hd
+
+/-- **C05 (binary start with a cached right side)**: the mirror image (Props/C11.lean). -/
+theorem bstart_grammar_right (ch : Nat → Bool) (nL nR : Nat) (ops : List (Op α))
+    (hc : contractR nL nR ops = true) (hd : (run ch nL nR false true ops).2 = .done) :
+    grammarOk (run ch nL nR false true ops).1 = true :=
+  shaped_grammar (run_shaped_right nL nR ops hc) hd
 
 /-- Former findings F6 / F6b (fixed by 6c83288 / 14727d5): the histories that used to put data between
     the last `FlushAndRestart` and `Terminate` now respect the grammar. -/
@@ -50,13 +57,13 @@ example :
     let h : List (Op Nat) :=
       Op.b true 0 [.item 41, .far, .term] ++ Op.b false 0 [.far] ++ [.enq false 1 [.far]]
         ++ Op.b false 0 [.term] ++ Op.b false 1 [.term]
-    (run 1 2 true false h).2 = .done ∧ grammarOk (run 1 2 true false h).1 = true := by
+    (run (fun _ => true) 1 2 true false h).2 = .done ∧ grammarOk (run (fun _ => true) 1 2 true false h).1 = true := by
   decide
 
 example :
     let h : List (Op Nat) :=
       Op.b true 0 [.item 41, .far, .term] ++ Op.b false 0 [.far] ++ Op.b false 0 [.term]
-    (run 1 1 true false h).2 = .done ∧ grammarOk (run 1 1 true false h).1 = true := by
+    (run (fun _ => true) 1 1 true false h).2 = .done ∧ grammarOk (run (fun _ => true) 1 1 true false h).1 = true := by
   decide
 
 /-- the good cases: no cache, two replicas on the left, two iterations, a queued `Terminate`;
@@ -66,14 +73,14 @@ example :
       Op.b true 0 [.item 1, .far] ++ Op.b false 0 [.item 2] ++ Op.b true 1 [.far] ++ Op.b false 0 [.far]
         ++ Op.b true 1 [.item 3, .far, .term] ++ Op.b true 0 [.far] ++ [.enq true 0 [.term]]
         ++ Op.b false 0 [.item 4, .far, .term]
-    (run 2 1 false false h).2 = .done ∧ grammarOk (run 2 1 false false h).1 = true := by
+    (run (fun _ => true) 2 1 false false h).2 = .done ∧ grammarOk (run (fun _ => true) 2 1 false false h).1 = true := by
   decide
 
 example :
     let h : List (Op Nat) :=
       Op.b true 0 [.item 41, .far, .term] ++ [.enq false 0 [.far]] ++ Op.b false 0 [.item 2]
         ++ [.enq false 0 [.far]] ++ Op.b false 0 [.term]
-    (run 1 1 true false h).2 = .done ∧ grammarOk (run 1 1 true false h).1 = true := by
+    (run (fun _ => true) 1 1 true false h).2 = .done ∧ grammarOk (run (fun _ => true) 1 1 true false h).1 = true := by
   decide
 
 end Noir.BinaryStart
